@@ -53,7 +53,14 @@ CHECKS = {
             "flatten_logical_and sound, Selection normalisation equivalent, required columns sufficient. " + CORR,
             "", "DESIGN.md 5/C13"),
     "C14": (TV, "Lean model + correspondence (proofs in progress)", CORR, "", "DESIGN.md 5/C14"),
-    "C15": (TV, "Lean model + correspondence (proofs in progress)", CORR, "", "DESIGN.md 5/C15"),
+    "C15": (PR, "Lean 4 theorems: Transfer.simplify sound, iteration-engine transfers keep content, materialize of locked adds nothing, back-tracking stops at locked nodes, _finish_apply keeps locked nodes + regenerated is_locked table + correspondence",
+            "Machine-checked: whatever Transfer.simplify hands back has the original content, the requested engine and is "
+            "reached through transfers/unlocked markers only; transfers between iteration engines (incl. there-and-back) "
+            "keep content and land in the requested engine; a no-op transfer returns the relation itself; materializing a "
+            "leaf/materialization adds nothing in either engine family; backtrack_unary inserts nothing below a locked "
+            "node; every locked node of a tree returned by _finish_apply is an unchanged locked node of the input. Proof "
+            "(partial): transfers through the SQL engine's conform and the SQL-side _append_* functions are validated by "
+            "correspondence + the locked-node oracle, not proved. " + CORR, "", "DESIGN.md 5/C15"),
     "C16": (PR, "Lean 4 theorems over the Diagnostics.run model (diag_sound, diag_exact) + regenerated flag table + correspondence",
             "Machine-checked: if Diagnostics.run reports doomed, the reference semantics of the tree is empty (without "
             "executor: unconditionally; with executor: for any executor that never under-counts... see Props/C16.lean), "
